@@ -4,7 +4,7 @@
 From Coq Require Import ZArith QArith List Bool.
 From Verif.Model Require Import Result.
 Import ListNotations.
-Open Scope Z_scope.
+Local Open Scope Z_scope.
 
 Inductive cclass := CNums | CAlphas | CAlphanums | CChars (s : str).
 
